@@ -56,7 +56,22 @@ func main() {
 	list := flag.Bool("list", false, "print every obligation")
 	goarch := flag.String("goarch", "", "GOARCH for the load (default host)")
 	coarse := flag.Bool("cha", false, "use the CHA call graph instead of VTA")
+	selftest := flag.Bool("selftest", false, "run only the stored source mutations of -prop (all properties when -prop is empty) and print the outcome")
+	only := flag.String("only", "", "with -selftest: only mutations whose id contains this string")
 	flag.Parse()
+	if *selftest {
+		bad := 0
+		for _, r := range runSelftest(verifDir(), *repo, *prop, 6, *only) {
+			fmt.Printf("%-9s %-40s expect=%s  %s\n", r.Outcome, r.ID, r.Expected, r.Detail)
+			if r.Outcome != "reported" {
+				bad++
+			}
+		}
+		if bad > 0 {
+			os.Exit(1)
+		}
+		return
+	}
 
 	vdir := verifDir()
 	var onlyKey string
